@@ -58,6 +58,7 @@ class Program(object):
         if normalize:
             from . import normalize as nz
             self.renamed = nz.resolve_renames(self)
+            self.renamed.update(nz.resolve_field_renames(self))
             self.inlined_helpers = nz.inline_pure_helpers(self)
             self.inlined_procs = nz.inline_new_helpers(self)
 
